@@ -58,7 +58,112 @@ class ScriptedNormal:
         return out
 
 
+def run_F_direct(scn: Dict[str, Any], on) -> Dict[str, Any]:
+    """the Fundamentals object used on its own (public API: add_market in any id order, remove_market and
+    re-adding, set_correlation), with the scripted normal source: start value, positivity, exact zero-volatility
+    paths and the covariance of one-step log-returns, indexed by market id."""
+    from pams.fundamentals import Fundamentals
+    res = new_result()
+    mon = Monitor(on, "F")
+    F = scn["f"]
+    ids = [int(x) for x in F["direct_ids"]]
+    params = {i: m for i, m in zip(ids, F["markets"])}
+    res["phase"] = "run"
+    try:
+        f = Fundamentals(prng=random.Random(scn["runner_seed"]))
+        order = list(ids)
+        for i in order:
+            m = params[i]
+            f.add_market(market_id=i, initial=float(m["initial"]), drift=float(m["drift"]), volatility=float(m["vol"]))
+        for i in F.get("readd", []):  # removed and added again: ends up last in registration order
+            i = ids[int(i) % len(ids)]
+            m = params[i]
+            f.remove_market(market_id=i)
+            f.add_market(market_id=i, initial=float(m["initial"]), drift=float(m["drift"]), volatility=float(m["vol"]))
+            mon.probe("market_removed_and_added_again")
+        corr = {}
+        for a, b, c in F.get("corr") or []:
+            ia, ib = ids[a], ids[b]
+            if params[ia]["vol"] == 0 or params[ib]["vol"] == 0 or ia == ib:
+                continue
+            f.set_correlation(market_id1=ia, market_id2=ib, corr=float(c))
+            corr[(ia, ib)] = float(c)
+        if (scn.get("knobs") or {}).get("generation_chunk") and hasattr(f, "_generate_chunk_size"):
+            f._generate_chunk_size = int(scn["knobs"]["generation_chunk"])
+        scripted = None
+        if hasattr(f, "_np_prng") and hasattr(f, "_generated_until"):
+            scripted = ScriptedNormal(f, scn["runner_seed"])
+            f._np_prng = scripted
+        V = sorted(i for i in ids if params[i]["vol"] != 0)
+        T = int(F.get("steps", 40))
+        prices = {i: [f.get_fundamental_price(market_id=i, time=t) for t in range(T + 1)] for i in ids}
+        if sorted(ids) != ids:
+            mon.probe("fundamentals_ids_not_ascending")
+        A: Dict[int, Any] = {}
+        for i in ids:
+            p = prices[i]
+            m = params[i]
+            if p[0] != float(m["initial"]):
+                mon.viol("C12", "initial_value", {"market": i, "got": p[0], "want": m["initial"]})
+            for t, v in enumerate(p):
+                if not (isinstance(v, float) and math.isfinite(v) and v > 0):
+                    mon.viol("C12", "not_positive_finite", {"market": i, "t": t, "value": v})
+                    break
+                if m["vol"] == 0:
+                    want = float(m["initial"]) * math.exp(float(m["drift"]) * t)
+                    if not close(v, want, 1e-12 * max(1, t)):
+                        mon.viol("C12", "zero_vol_path", {"market": i, "t": t, "got": v, "want": want})
+                        break
+            mon.stat("f_steps", T)
+        if scripted is not None and V:
+            for t in range(1, T + 1):
+                z = scripted.served.get(t)
+                if z is None or len(z) != len(V):
+                    continue
+                exc = np.asarray([math.log(prices[i][t] / prices[i][t - 1]) - float(params[i]["drift"]) for i in V])
+                nz = np.flatnonzero(z)
+                if len(nz) == 0:
+                    if np.abs(exc).max(initial=0.0) > 1e-12:
+                        mon.viol("C12", "drift_wrong", {"t": t, "excess_return_with_zero_noise": exc.tolist()})
+                elif len(nz) == 1 and z[nz[0]] == 1.0:
+                    A[int(nz[0])] = exc
+                elif len(A) == len(V):
+                    Mx = np.column_stack([A[j] for j in range(len(V))])
+                    want = Mx @ z
+                    if np.abs(want - exc).max() > 1e-9 * max(1.0, np.abs(want).max()):
+                        mon.viol("C12", "not_linear_in_noise", {"t": t, "got": exc.tolist(), "want": want.tolist()})
+            if len(A) == len(V):
+                Mx = np.column_stack([A[j] for j in range(len(V))])
+                got = Mx @ Mx.T
+                D = np.diag([float(params[i]["vol"]) for i in V])
+                C = np.eye(len(V))
+                for (a, b), c in corr.items():
+                    C[V.index(a), V.index(b)] = c
+                    C[V.index(b), V.index(a)] = c
+                want = D @ C @ D
+                if np.abs(got - want).max() > 1e-9 * max(np.abs(want).max(), 1e-300):
+                    mon.viol("C12", "covariance_wrong", {"ids_in_registration_order": order, "got": got.tolist(), "want": want.tolist(),
+                                                         "corr": {f"{a}-{b}": c for (a, b), c in corr.items()}})
+                mon.probe("scripted_covariance_checked")
+                if corr:
+                    mon.probe("scripted_covariance_with_correlation")
+        mon.trace = [(i, tuple(prices[i][:8])) for i in ids]
+        res["completed"] = True
+    except Exception as e:
+        res["error"] = classify_exception(e)
+        if res["error"]["in_harness"]:
+            raise
+    res["violations"] = [v.as_dict() for v in mon.violations]
+    res["stats"] = dict(mon.stats)
+    res["probes"] = dict(mon.probes)
+    res["n_events"] = mon.seq
+    res["_mon"] = mon
+    return res
+
+
 def run_F(scn: Dict[str, Any], on, plugins=()) -> Dict[str, Any]:
+    if (scn.get("f") or {}).get("direct_ids"):
+        return run_F_direct(scn, on)
     res = new_result()
     mon = Monitor(on, "F")
     ctx = Ctx(scn, mon)
